@@ -232,6 +232,15 @@ def r2_effect_kinds(ctx, F):
     ctx.check(len(ins) == 1 and noref(sd.val(ins[0].args[1])) == V('arg', 2), rule, 'dup-send-inserts', sd,
               good='send on a duplicating network inserts the envelope',
               bad='Network::send on UnorderedDuplicating does not insert the sent envelope')
+    # ... on every path: a sent message is in the network afterwards, whatever was delivered before
+    for variant, sites in (('UnorderedDuplicating', [c.bb for c in ins]), ('UnorderedNonDuplicating', inc)):
+        starts = [e[1] for e in ssd.edges_for(variant)]
+        r = sd.reach(starts, cut_blocks=sites) if starts and sites else set(sd.returns)
+        ctx.check(bool(sites) and not any(x in r for x in sd.returns), rule, 'send-always-adds@%s' % variant, sd,
+                  good='send on %s adds the envelope on every path' % variant,
+                  bad='Network::send on %s can return without adding the envelope (the insertion is conditional): '
+                      'a sent message is in flight on some histories and silently missing on others, so it is '
+                      'neither deliverable nor droppable' % variant)
 
 
 def r3_fifo(ctx, F):
